@@ -120,6 +120,9 @@ func eventTimeout() time.Duration {
 // PullActiveMode event iff a Set succeeded and the value differs from the one published before.
 func (w *world) collectEvents(m *lib.Monitor, input any, o op, before, after snap, err error, hadActiveEvent *bool) string {
 	st := w.streams
+	if o.untame() != "" {
+		m = nil // the state-level monitor reports this operation; the events still go to the tie
+	}
 	wantModes := 0
 	if strings.Join(modeStrings(before), ";") != strings.Join(modeStrings(after), ";") {
 		wantModes = 1
